@@ -27,7 +27,13 @@ INT_PARAMS = [False]      # shape parameters given as python ints (so that integ
 
 def dy(rng, lo, hi, den=4):
     if INT_PARAMS[0]:
-        return int(rng.integers(lo, hi + 1))
+        v = int(rng.integers(lo, hi + 1))
+        if rng.random() < 0.4:
+            # ... or numpy integer scalars of any width (values read from an integer array): the number is the same
+            for dt in rng.permutation([np.int8, np.uint8, np.int16, np.int32, np.int64]).tolist():
+                if np.iinfo(dt).min <= v <= np.iinfo(dt).max:
+                    return dt(v)
+        return v
     return float(rng.integers(lo * den, hi * den + 1)) / den
 
 
@@ -92,7 +98,7 @@ def run(chk):
     bystander = [None]
     for _ in range(N):
         kind, info, kw, pts, side = gen_points(rng, thorough)
-        INT_PARAMS[0] = bool(kind != "grid" and info["x"].dtype.kind in "iu" and rng.random() < 0.6)
+        INT_PARAMS[0] = bool((kind != "grid" and info["x"].dtype.kind in "iu" and rng.random() < 0.6) or (kind == "grid" and rng.random() < 0.3))
         n = len(pts)
         ranking = rng.permutation(n)
         if rng.random() < 0.3:
